@@ -110,7 +110,7 @@ theorem applyRec_ok {P : Int → Int → Prop} (c : Cfg) (p : Idx) (pos : Pos) (
                     q.updateHeaderMetadata (Idx.mkRow h2 pos.recd pos.blk pos.recd pos.blk)
                   else
                     match q.getHeader o with
-                    | (q', .ok old) => q'.updateHeaderMetadata (Idx.mkRow h2 old.recd old.blk pos.recd pos.blk)
+                    | (q', .ok old) => q'.updateHeaderMetadata (Idx.mkRow (if (h2.pax.get recSTFSRecordUncompressedSize).isNone then { h2 with size := old.hdr.size } else h2) old.recd old.blk pos.recd pos.blk)
                     | (q', .error _) => q').rows := by
                 intro q hq o
                 split
@@ -135,7 +135,7 @@ theorem applyRec_ok {P : Int → Int → Prop} (c : Cfg) (p : Idx) (pos : Pos) (
                     p.updateHeaderMetadata (Idx.mkRow h2 pos.recd pos.blk pos.recd pos.blk)
                   else
                     match p.getHeader o with
-                    | (q', .ok old) => q'.updateHeaderMetadata (Idx.mkRow h2 old.recd old.blk pos.recd pos.blk)
+                    | (q', .ok old) => q'.updateHeaderMetadata (Idx.mkRow (if (h2.pax.get recSTFSRecordUncompressedSize).isNone then { h2 with size := old.hdr.size } else h2) old.recd old.blk pos.recd pos.blk)
                     | (q', .error _) => q') = q at this ⊢
                 have hm := moveHeader_ok q o h2.name pos.recd pos.blk this hp
                 simp only [if_true]
